@@ -165,12 +165,36 @@ def r53(ctx):
         ctx.bad("R-5.3", f, "sort_trajstate does not exclude busy paths from its swap candidates: a path held by an in-flight job can be moved to an idle slot")
 
 
+def r54(ctx):
+    """The restart file written after a step loads: in-flight jobs are recorded in the unit
+    pick_lock reads back (C08 R-8.7 evaluated under C05)."""
+    from . import c08
+
+    class Proxy:
+        def __init__(self, c):
+            self._c = c
+            self.tree = c.tree
+
+        def ok(self, rid, node, what, nontrivial=True):
+            self._c.ok("R-5.4", node, what, nontrivial)
+
+        def bad(self, rid, node, message, **kw):
+            self._c.bad("R-5.4", node, message, **kw)
+
+        def note(self, m):
+            self._c.note(m)
+
+    c08.r87(Proxy(ctx))
+
+
 def run(ctx):
     ctx.rule("R-5.2", "the restart file written after a step is written after the re-sorting (commit is final)", floor=1)
+    ctx.rule("R-5.4", "in-flight jobs are persisted in the ensemble-index unit that the restart reads back (shared with C08 R-8.7)", floor=4)
     ctx.rule("R-5.3", "the re-sort only moves idle paths: busy-path membership tests compare like with like (shared with C03 R-3.8)", floor=4)
     ctx.rule("R-5.1", "path-number counter discipline (never reused, also across restarts)", floor=5)
     ctx.attempt(r51, ctx)
     ctx.attempt(r53, ctx)
+    ctx.attempt(r54, ctx)
     from .shared import commit_is_final
     ctx.attempt(commit_is_final, ctx, "R-5.2")
 
@@ -186,6 +210,7 @@ VARIANTS = [
     B("c05-commit-before-sort", REPEX, "        self.sort_trajstate()\n        self.config[\"current\"][\"traj_num\"] = traj_num\n", "        self.config[\"current\"][\"traj_num\"] = traj_num\n        self.write_toml()\n        self.sort_trajstate()\n", "R-5.2", control=True, why="seeded C06_a"),
     B("c05-locked-paths-from-record", REPEX, "        locks = [\n            t0.path_number\n            for t0, l0 in zip(self._trajs[:-1], self._locks[:-1])\n            if l0\n        ]\n        return locks", "        return [pnum for _, pnums in self.locked for pnum in pnums]", "R-5.3", control=True, why="seeded C05_a (same change as C03_a)"),
     B("c05-sort-ignores-busy", REPEX, "                j if self._trajs[i].path_number not in locks else 0\n", "                j\n", "R-5.3"),
+    B("c05-reissue-recorded-with-offset", REPEX, "        self.locked.append((enss, trajs0))\n", "        self.locked.append((enss0, trajs0))\n", "R-5.4", why="seeded C05_b (= C08_b, C06_b)"),
     K("c05-keep-plain-increment", REPEX, "                traj_num += 1\n", "                traj_num += 1  # next free number\n"),
     K("c05-keep-counter-renamed", REPEX, '        traj_num = self.config["current"]["traj_num"]', '        next_number = self.config["current"]["traj_num"]',
       also=[(REPEX, "                out_traj.path_number = traj_num\n", "                out_traj.path_number = next_number\n"),
